@@ -633,6 +633,8 @@ def _move(func, args, kwargs):
                 return x  # an index / mask tensor whose shadow holds only concrete values
             if func in (aten.index.Tensor, aten._unsafe_index.Tensor, aten.masked_select.default, aten.index_select.default,
                         aten.gather.default, aten.take.default):
+                if x.dtype == torch.bool and concretize_mask(x):
+                    return x
                 raise Unsupported("symbolic mask / index tensor in %s at %s" % (func, where_am_i()))
         if isinstance(x, torch.Tensor) and (x.is_floating_point() or SH.has(x)):
             A = SH.get(x)
@@ -663,6 +665,19 @@ def _move(func, args, kwargs):
         for o, i in zip(out, idout):
             SH.put(o, dec(i))
     return out
+
+
+def concretize_mask(x):
+    """a boolean mask of symbolic comparisons used to SELECT elements (data-dependent shape): the pattern observed at the
+       witness becomes a path condition and the mask is used concretely"""
+    A = SH.get(x)
+    if not all(isinstance(v, (SymB, bool, np.bool_)) for v in A.reshape(-1)):
+        return False
+    for v in A.reshape(-1):
+        if isinstance(v, SymB):
+            CTX.pc.append(v.f if v.c else z3.Not(v.f))
+    CTX.branches.append(("mask pattern", int(x.sum()), where_am_i()))
+    return True
 
 
 def _all_concrete(A):
@@ -757,6 +772,8 @@ def h_index_put(func, args, kwargs):
     accumulate = args[3] if len(args) > 3 else kwargs.get("accumulate", False)
     for i in indices:
         if i is not None and SH.has(i) and not _all_concrete(SH.get(i)):
+            if i.dtype == torch.bool and concretize_mask(i):
+                continue
             raise Unsupported("index_put with a symbolic mask/index")
     A = SH.get(self_).copy()
     V = SH.get(values) if isinstance(values, torch.Tensor) else arr0(as_sym(values))
